@@ -24,6 +24,6 @@ for id in "$@"; do
   out=$(VERIF_ROOT=$hd/root VERIF_SPEC_DIR=/verif/spec VERIF_REPO=$wt $hd/root/bin/verif check "$id" --tier quick 2>&1); rc=$?
   nv=$(printf '%s\n' "$out" | grep -c '^VIOLATION')
   echo "MUTANT $name check=$id exit=$rc violations=$nv secs=$(( $(date +%s) - start ))"
-  printf '%s\n' "$out" | grep -A1 '^VIOLATION' | head -2 | cut -c1-400
+  printf "%s\n" "$out" | grep -A1 "^VIOLATION" | head -2 | cut -c1-400; [ -n "$MUT_TAIL" ] && printf "%s\n" "$out" | tail -$MUT_TAIL
   [ $rc -eq 2 ] && printf '%s\n' "$out" | tail -5
 done
